@@ -238,6 +238,7 @@ func loImpliesAtLeast(fs facts, limit *big.Float, truncating bool) bool {
 }
 
 func checkC03(c *Ctx, r *Report) {
+	defer numberSourceRule(c, r, "R03g")
 	r.Assumption("strconv.ParseInt/ParseUint/ParseFloat/ParseBool and time.ParseDuration report out-of-range and malformed input as errors (trusted standard library)")
 	r.Assumption("int->float conversions round to the nearest float and are not treated as wrap-around; that an in-range value is stored exactly is not decided")
 	sizes := c.Pkgs[""].TypesSizes
